@@ -5,12 +5,13 @@ import vlib
 
 PROPS = ["C04/Props.v"]
 META = dict(
-    text="Rocq theorems over an executable transcription of the re-sequencing writer loop shared by WriteSeqFileChunk (FASTA/FASTQ), WriteJSON and WriteCSV: for every list of formatted chunks (empty ones included) and EVERY arrival permutation the device receives concat(chunks) (FASTA/FASTQ), '[\\n' + join ',\\n' (non-empty chunks) + '\\n]\\n' (JSON) or header + rows (CSV), followed by exactly one Close. Round 2, over RECORDS: FormatJSONBatch and FormatCVSBatch are inside the model; C04_json_is_array: if every record is a serialised JSON object (executable RFC 8259 recogniser written as a pushdown automaton, Json.v) then for every batch partition and arrival permutation the output is ONE grammatical JSON text, an array whose elements are exactly the records of all batches in order; C04_csv_rows / C04_csv_rows_decodable: header line (inside batch 0) + one encoding/csv line per record in order, and a reader of that line syntax gets header and rows back; completion order: the result iterator ends only after the sink is closed (closing-script LTS; C04_iter_end_implies_sink_closed, refuted for the unrepaired order). Tied to the code on every run: the real writers are driven with one formatting worker and an input iterator delivering the batches in every permutation of <=5 (thorough <=6, sampled 7) batch numbers x every subset of empty batches into an in-memory io.WriteCloser counting Close (also: slow sink, OptionDontCloseFile, chunk sizes of exactly 4095/4096/4097 bytes and beyond, records with quotes/commas/newlines/leading blanks/non-ASCII/control characters); bytes, close count and 'sink closed when the result iterator ended' are compared with the model (vm_compute) and a Python oracle (json.loads / encoding/json / csv.reader); the real JSONRecord/CSVRecord outputs are fed to the Coq recogniser and formatter models (records are objects, FormatJSONBatch/FormatCVSBatch = model, output = array of the records / decodable rows); the recogniser is compared with json.loads on ~1500 valid and mutated texts; obicsv and obiconvert --json-output are run to stdout and to -o FILE.",
-    note="Trusted: Coq kernel + vm_compute; harness and generators; the Wfile/bufio layer is a pass-through in this model (its failure behaviour is C18). JSONRecord (go-json MarshalIndent + unescaping) and CSVRecord are not modelled: that each record is a JSON object is the HYPOTHESIS of C04_json_is_array, discharged per run by evaluating the recogniser on the real records (and by json.loads); FormatFastaBatch/FormatFastqBatch are taken as the source of the chunks. The recogniser does not check UTF-8 well-formedness and json_array_objects only accepts arrays of objects/arrays. The CSV line model follows encoding/csv's Writer (Comma=',', UseCRLF=false; unicode.IsSpace of the first rune transcribed); the CSV reader of the round-trip theorem is the model's own (Go's reader skips empty lines and rewrites CRLF inside quotes: not claimed). Completion order: goroutines are abstracted to the closing script [ChanClose; WaitWriter; IterClose] - Go channel/WaitGroup semantics are the LTS primitives; the tie is the harness observation on every run (slow sink included). With several formatting workers the arrival order is not observable: those cases are compared with the model under the identity arrival. OptionDontCloseFile runs are checked by the oracle only. The unrepaired WriteJSON is kept as json_writer_orig with C04_json_orig_refuted.")
-TRUSTED = ["JSONRecord / CSVRecord / FormatFastaBatch / FormatFastqBatch produce the records resp. chunks (not modelled); 'every record is a JSON object' is a hypothesis discharged on the real records on every run (Coq recogniser + json.loads)",
+    text="Rocq theorems over an executable transcription of the re-sequencing writer loop shared by WriteSeqFileChunk (FASTA/FASTQ), WriteJSON and WriteCSV: for every list of formatted chunks (empty ones included) and EVERY arrival permutation the device receives concat(chunks) (FASTA/FASTQ), '[\\n' + join ',\\n' (non-empty chunks) + '\\n]\\n' (JSON) or header + rows (CSV), followed by exactly one Close. Over RECORDS (round 2): FormatJSONBatch and FormatCVSBatch are inside the model; C04_json_is_array: if every record is a serialised JSON object (executable RFC 8259 recogniser written as a pushdown automaton, Json.v) then for every batch partition and arrival permutation the output is ONE grammatical JSON text, an array whose elements are exactly the records of all batches in order; C04_csv_rows / C04_csv_rows_decodable; completion order (C04_iter_end_implies_sink_closed). Round 3, the glue (Glue.v): WriteSeqFileChunk driven with arbitrary chunks closing or not closing its sink (C04_chunk_writer_any_permutation); the *ToFile entry points: the file holds afterwards exactly the framed batches, after its former content iff appending (C04_file_truncated_or_appended, C04_paired_files for the mates' file); the universal writer WriteSequence, whose format is read off the first batch WITH SEQUENCE DATA that arrives: on a stream whose reads agree about qualities the output is that format's chunks in order for every arrival order and every set of empty batches, zero-length reads included (C04_universal_homogeneous, C04_universal_fastq_stream; the unrepaired decision is refuted: C04_universal_orig_first_record_refuted) and an input without any batch is still closed once (C04_universal_no_batch_closes); CSVHeader/CSVRecord under every column option give a rectangular table that decodes to header + one row per record (C04_csv_rectangular, C04_csv_table); obicsv --auto proposes the keys of batch 0, sorted, without duplicates, independent of the arrival order (C04_auto_columns_arrival_independent, C04_auto_columns_sorted). Tied to the code on every run: the real writers are driven with one formatting worker and an input iterator delivering the batches in every permutation of <=5 (thorough <=6, sampled 7) batch numbers x every subset of empty batches into an in-memory io.WriteCloser counting Close (also: slow sink, OptionDontCloseFile, chunk sizes around the 4096-byte buffer, records with quotes/commas/newlines/non-ASCII/control characters/percent signs/many attribute types/qualities/zero-length sequences/taxonomic annotations, batch 0 arriving after 7..11 others, 150-batch streams through 8 workers); WriteSeqFileChunk and the universal writer with every permutation of <=4 batches x every subset of empty ones; WriteFasta/Fastq/JSON/CSV/SequencesToFile and ...ToStdout in process (existing longer file, append, paired, compressed; the files are read when the result iterator ends); OpenWritingFile; all 2^8 combinations of the CSV column options and --auto under every permutation of <=3 batches. Bytes, close counts, file contents, header and rows are compared with the models (vm_compute) and with a Python oracle (json.loads / encoding/json / csv.reader / an independent computation of the CSV columns). 65 command-line runs (obiconvert in its four output formats and obicsv with four option sets; stdout, -o over an existing longer file, --compress, 1..4 CPUs, --paired-with, empty input) must give identical bytes within each (input, format) group, holding the records in order with the columns asked for.",
+    note="Trusted: Coq kernel + vm_compute; harness and generators; the Wfile/bufio layer is a pass-through in this model (its failure behaviour is C18). JSONRecord (go-json MarshalIndent + unescaping) is not modelled: that each record is a JSON object is the HYPOTHESIS of C04_json_is_array, discharged per run by evaluating the recogniser on the real records (and by json.loads); FormatFastaBatch/FormatFastqBatch are taken as the source of the chunks (with OptionsSkipEmptySequence a zero-length sequence contributes nothing: checked by the oracle on the ids). CSVRecord/CSVHeader are modelled over the string form of the values (fmt %v is the harness's). The recogniser does not check UTF-8 well-formedness and json_array_objects only accepts arrays of objects/arrays. The CSV line model follows encoding/csv's Writer; the CSV reader of the round-trip theorem is the model's own (Go's reader skips empty lines: a table with ONE column and an empty value is written as a blank line, which most readers skip - observation, outside the statement). Completion order: goroutines are abstracted to the closing script [ChanClose; WaitWriter; IterClose]. With several formatting workers the arrival order is not observable: those cases are compared with the model under the identity arrival; for paired files the model takes the arrival order of the second writer equal to the first one's (one worker). OptionDontCloseFile runs are checked by the oracle only. Outside the property: a stream mixing records with and without qualities makes the universal writer's format depend on the arrival order (no command produces one); the re-sequencing map has no size limit (observation: memory, not output). Not exercised: the log.Fatalf branches after a failed Write/Close/OpenFile in WriteSeqFileChunkDone, WriteJSON, WriteCSV and the *ToFile functions (failing devices are C18's subject); FormatFasta on a nil or zero-length sequence (FormatFastaBatch never passes one), FormatFastq (no caller), the log.Fatalf of FormatFastaBatch/FormatFastqBatch on a zero-length sequence without --skip-empty (terminates the command: no output to judge), the two log.Panicf of JSONRecord (go-json failing on a map of strings: unreachable with the values SetAttribute accepts). The readers drop zero-length reads, so those reach the writers only in process. The unrepaired WriteJSON is kept as json_writer_orig with C04_json_orig_refuted.")
+TRUSTED = ["JSONRecord / FormatFastaBatch / FormatFastqBatch produce the records resp. chunks (not modelled); 'every record is a JSON object' is a hypothesis discharged on the real records on every run (Coq recogniser + json.loads)",
            "JSON recogniser Json.v written by hand from RFC 8259 (no UTF-8 validation), compared with Python's json.loads on valid and mutated texts on every run",
-           "encoding/csv Writer line syntax transcribed by hand (Csv.v), tied by the correspondence run on the real FormatCVSBatch",
-           "completion order: Go channel / WaitGroup semantics abstracted to a 3-action closing script"]
+           "encoding/csv Writer line syntax transcribed by hand (Csv.v), tied by the correspondence run on the real FormatCVSBatch; CSVHeader/CSVRecord transcribed (Glue.v) over stringified values, tied by the correspondence on the real functions under all column options",
+           "completion order: Go channel / WaitGroup semantics abstracted to a 3-action closing script",
+           "os.OpenFile flags modelled as truncate-or-append of a byte list (Glue.file_after); SortBatches (obicsv --auto) modelled as the proved resequencer Common/Reseq"]
 
 WRITERS = ["fasta", "fastq", "json", "csv"]
 KIND = dict(fasta="KFasta", fastq="KFastq", json="KJson", csv="KCsv")
@@ -113,12 +114,22 @@ def random_case(rng, nmax=7, workers=None):
 
 
 def nbatches(c):
+    if c.get("raw_chunks") is not None:
+        return len(c["raw_chunks"])
     return len(c["bytes"]) if c.get("bytes") else len(c["sizes"])
 
 
+def eff_writer(c):
+    """the format the universal writer must choose: FASTQ iff the records carry qualities"""
+    if c.get("writer") == "auto":
+        return "fastq" if c.get("qual") else "fasta"
+    return c.get("writer")
+
+
 def to_vh(c):
-    d = dict(writer=c["writer"], sizes=c.get("sizes") or [], arrival=c["arrival"], workers=c.get("workers", 1), compressed=bool(c.get("compressed")))
-    for k in ("bytes", "rich", "ctl", "slow_ms", "no_close", "want_recs"):
+    d = dict(writer=c.get("writer", ""), sizes=c.get("sizes") or [], arrival=c["arrival"], workers=c.get("workers", 1), compressed=bool(c.get("compressed")))
+    for k in ("bytes", "rich", "ctl", "slow_ms", "no_close", "want_recs", "mode", "qual", "empty_seq", "tax", "var", "csv",
+              "append", "paired", "old", "raw_chunks", "to_be_closed"):
         if c.get(k):
             d[k] = c[k]
     return d
@@ -153,12 +164,189 @@ def out_bytes(c, o):
     return b
 
 
+def gunzip(b):
+    try:
+        return gzip.decompress(b) if b else b""
+    except Exception:
+        return None
+
+
+def py_csv_header(c):
+    f = c.get("csv") or ""
+    keys = (["k", "n", "absent"] if c.get("rich") else []) + (["n", "f", "ok", "absent", "scientific_name", "k"] if "k" in f else [])
+    return f, keys
+
+
+def check_csv_records(c, o, hdr, want):
+    """independent oracle of CSVHeader / CSVRecord: the columns the options ask for, in the documented order;
+    one value per column in every row (map-valued attributes: not compared)."""
+    f, keys = py_csv_header(c)
+    h = lambda x: bytes.fromhex(x).decode("utf8")
+    info = [r for b in (o.get("info") or []) for r in b]
+    if "a" in f:
+        b0 = (o.get("info") or [[]])[0] if o.get("info") else []
+        auto = sorted({h(k) for r in b0 for k in r["attrs"] if k not in r["maps"]}, key=lambda x: x.encode("utf8"))
+        keys = keys + auto
+    na = "-" if "N" in f else "NA"
+    cols = ([] if "i" in f else ["id"]) + (["count"] if "c" in f or c.get("rich") else []) + (["taxid", "scientific_name"] if "t" in f else []) + \
+           (["definition"] if "d" in f or c.get("rich") else []) + keys + ([] if "s" in f else ["sequence"]) + (["quality"] if "q" in f else [])
+    if hdr != cols:
+        return "CSV header %r instead of %r" % (hdr, cols)
+    if len(info) != len(want):
+        return None
+    for r, row in zip(info, want):
+        if len(row) != len(cols):
+            return "a CSV row has %d fields, the header %d" % (len(row), len(cols))
+        exp = []
+        if "i" not in f:
+            exp.append(h(r["id"]))
+        if "c" in f or c.get("rich"):
+            exp.append(str(r["count"]))
+        if "t" in f:
+            exp += [str(r["taxid"]), h(r["sn"]) if r["has_sn"] else ("root" if r["taxid"] == 1 else na)]
+        if "d" in f or c.get("rich"):
+            exp.append(h(r["def"]))
+        for k in keys:
+            hk = k.encode("utf8").hex()
+            exp.append(None if hk in r["maps"] else (h(r["attrs"][hk]) if hk in r["attrs"] else na))
+        if "s" not in f:
+            exp.append(h(r["seq"]))
+        if "q" in f:
+            exp.append(h(r["qual"]) if r["has_q"] else na)
+        for a, b in zip(exp, row):
+            if a is not None and a != b:
+                return "CSV row %r instead of %r" % (row, exp)
+    return None
+
+
+def check_content(c, o, w, out, chunks, ids, header, main=True):
+    """the bytes [out] are the framing of [chunks] for writer [w]; main: the record-level clauses as well"""
+    if w in ("fasta", "fastq"):
+        if out != b"".join(chunks):
+            return "bytes differ from the concatenation of the batches in order"
+        lines = out.decode("utf8", "replace").split("\n")
+        if w == "fasta":
+            got = [l[1:].split(" ")[0] for l in lines if l.startswith(">")]
+        else:
+            got = [l[1:].split(" ")[0] for l in lines[0::4] if l]
+        if main and got != ids:
+            return "record ids %r instead of %r" % (got, ids)
+        if main and o.get("recs") is not None and out != b"".join(bytes.fromhex(x) for rl in o["recs"] for x in rl):
+            return "the output is not the text of every record that has a sequence, once, in order"
+        return None
+    if w == "json":
+        try:
+            v = json.loads(out.decode("utf8"))
+        except Exception as e:
+            return "output is not valid JSON (%s)" % e
+        if not isinstance(v, list) or (main and [r.get("id") if isinstance(r, dict) else None for r in v] != ids):
+            return "JSON array does not hold one object per record in order"
+        recs = [bytes.fromhex(x) for b in (o.get("recs") or []) for x in b]
+        try:
+            if main and o.get("recs") is not None and [json.loads(r.decode("utf8")) for r in recs] != v:
+                return "the elements of the JSON array are not the serialised records in order"
+        except Exception as e:
+            return "a serialised record is not valid JSON (%s)" % e
+        if main and not c.get("mode") and not c.get("compressed") and (not o.get("json_ok") or o.get("json_ids") != ids):
+            return "encoding/json rejects the output or reads other ids"
+        if out != b"[\n" + b",\n".join(x for x in chunks if x) + b"\n]\n":
+            return "bytes differ from '[\\n' + join(',\\n', non-empty batches) + '\\n]\\n'"
+        return None
+    if w == "csv":
+        if nbatches(c) == 0:
+            return None if not out else "no batch, yet %d bytes were written" % len(out)
+        rows = list(csv.reader(io.StringIO(out.decode("utf8"), newline="")))
+        hdr = [bytes.fromhex(x).decode("utf8") for x in (o.get("hdr_fields") or [])]
+        if len(hdr) == 1:
+            rows = [r if r else [""] for r in rows]     # encoding/csv writes a lone empty field as a blank line (observation, see META)
+        if not rows or rows[0] != hdr:
+            return "first line is not the header"
+        if main and hdr[:1] == ["id"] and [r[0] if r else None for r in rows[1:]] != ids:
+            return "rows %r instead of %r" % ([r[0] if r else None for r in rows[1:]], ids)
+        want = [[bytes.fromhex(x).decode("utf8") for x in r] for b in (o.get("fields") or []) for r in b]
+        if main and rows[1:] != want:
+            return "the rows read back by a CSV reader are not the fields of the records in order"
+        if main:
+            why = check_csv_records(c, o, hdr, want)
+            if why:
+                return why
+        if out != header + b"".join(chunks):
+            return "bytes differ from header + rows of the batches in order"
+        return None
+    return "unknown writer"
+
+
+def file_bodies(c, o):
+    """file / stdout mode: [(what, body bytes or None, chunks)] for the forward (and reverse) file, the old content
+    stripped when appending; a reason instead when a file is not old ++ new / new"""
+    res = []
+    olds = [bytes.fromhex(x) for x in (o.get("old_hex") or [])]
+    for k, hx in enumerate(o.get("files_final") or []):
+        data = bytes.fromhex(hx)
+        what = "reverse file" if k else "file"
+        if (o.get("files") or [None, None])[k] != hx:
+            return "the %s was not complete when the result iterator ended (%d bytes then, %d after the last pipe)" % (
+                what, len((o.get("files") or ["", ""])[k]) // 2, len(data))
+        old = olds[k] if k < len(olds) else b""
+        if c.get("append"):
+            if data[:len(old)] != old:
+                return "append: the %s does not start with its former content" % what
+            data = data[len(old):]
+        if c.get("compressed"):
+            data = gunzip(data)
+            if data is None:
+                return "the %s is not a valid gzip stream (an older, longer content left in place?)" % what
+        res.append((what, data, [bytes.fromhex(x) for x in (o.get("rchunks" if k else "chunks") or [])]))
+    return res
+
+
 def check(c, o):
     """Direct oracle: the statement of C04 evaluated on what the implementation did. Returns None or a reason."""
     if o.get("kind") == "skip":
         return None       # a chunk of exactly that many bytes cannot be formed (counted in the coverage)
     if o.get("kind") != "ok":
         return "writer did not terminate / crashed: %s" % (o.get("err") or o.get("kind"))
+    mode = c.get("mode")
+    if mode == "chunks":
+        if o["closes"] != (1 if c.get("to_be_closed") else 0):
+            return "WriteSeqFileChunk(toBeClosed=%s): the sink was closed %d times" % (bool(c.get("to_be_closed")), o["closes"])
+        if o.get("late_writes"):
+            return "write after Close"
+        if bytes.fromhex(o.get("out") or "") != b"".join(bytes.fromhex(x) for x in c["raw_chunks"]):
+            return "bytes differ from the concatenation of the chunks in order"
+        return None
+    if mode == "wfile":
+        data = bytes.fromhex((o.get("files") or [""])[0])
+        old = bytes.fromhex((o.get("old_hex") or [""])[0])
+        if o.get("err"):
+            return "OpenWritingFile/Write/Close error: " + o["err"]
+        if c.get("append"):
+            if data[:len(old)] != old:
+                return "append: the file does not start with its former content"
+            data = data[len(old):]
+        if c.get("compressed"):
+            data = gunzip(data)
+            if data is None:
+                return "the file is not a valid gzip stream (an older, longer content left in place?)"
+        if data != b"".join(bytes.fromhex(c["raw_chunks"][k]) for k in c["arrival"]):
+            return "the file does not hold exactly the bytes written (an existing file is not truncated?)"
+        return None
+    ids = o.get("ids") or []
+    w = eff_writer(c)
+    if w in ("fasta", "fastq") and o.get("empty_ids"):
+        ids = [x for x in ids if x not in set(o["empty_ids"])]     # OptionsSkipEmptySequence
+    header = bytes.fromhex(o.get("header") or "")
+    if mode in ("file", "stdout"):
+        fb = file_bodies(c, o)
+        if isinstance(fb, str):
+            return fb
+        if len(fb) != (2 if c.get("paired") else 1):
+            return "%d output files" % len(fb)
+        for k, (what, body, chunks) in enumerate(fb):
+            why = check_content(c, o, w, body, chunks, ids, header, main=(k == 0))
+            if why:
+                return "%s: %s" % (what, why)
+        return None
     if c.get("no_close"):
         if o["closes"] != 0:
             return "OptionDontCloseFile: the sink was closed %d times" % o["closes"]
@@ -173,54 +361,7 @@ def check(c, o):
     if out is None:
         return "compressed output is not a valid gzip stream"
     chunks = [bytes.fromhex(x) for x in (o.get("chunks") or [])]
-    ids = o.get("ids") or []
-    w = c["writer"]
-    if w in ("fasta", "fastq"):
-        if out != b"".join(chunks):
-            return "bytes differ from the concatenation of the batches in order"
-        lines = out.decode("latin1").split("\n")
-        if w == "fasta":
-            got = [l[1:].split(" ")[0] for l in lines if l.startswith(">")]
-        else:
-            got = [l[1:].split(" ")[0] for l in lines[0::4] if l]
-        if got != ids:
-            return "record ids %r instead of %r" % (got, ids)
-        return None
-    if w == "json":
-        try:
-            v = json.loads(out.decode("utf8"))
-        except Exception as e:
-            return "output is not valid JSON (%s)" % e
-        if not isinstance(v, list) or [r.get("id") if isinstance(r, dict) else None for r in v] != ids:
-            return "JSON array does not hold one object per record in order"
-        recs = [bytes.fromhex(x) for b in (o.get("recs") or []) for x in b]
-        try:
-            if o.get("recs") is not None and [json.loads(r.decode("utf8")) for r in recs] != v:
-                return "the elements of the JSON array are not the serialised records in order"
-        except Exception as e:
-            return "a serialised record is not valid JSON (%s)" % e
-        if not c.get("compressed") and (not o.get("json_ok") or o.get("json_ids") != ids):
-            return "encoding/json rejects the output or reads other ids"
-        if out != b"[\n" + b",\n".join(x for x in chunks if x) + b"\n]\n":
-            return "bytes differ from '[\\n' + join(',\\n', non-empty batches) + '\\n]\\n'"
-        return None
-    if w == "csv":
-        if nbatches(c) == 0:
-            return None   # no batch: the statement only demands the single Close
-        header = bytes.fromhex(o.get("header") or "")
-        rows = list(csv.reader(io.StringIO(out.decode("utf8"), newline="")))
-        hdr = [bytes.fromhex(x).decode("utf8") for x in (o.get("hdr_fields") or [])]
-        if not rows or rows[0] != hdr or hdr[:1] != ["id"]:
-            return "first line is not the header"
-        if [r[0] for r in rows[1:]] != ids:
-            return "rows %r instead of %r" % ([r[0] for r in rows[1:]], ids)
-        want = [[bytes.fromhex(x).decode("utf8") for x in r] for b in (o.get("fields") or []) for r in b]
-        if rows[1:] != want:
-            return "the rows read back by a CSV reader are not the fields of the records in order"
-        if out != header + b"".join(chunks):
-            return "bytes differ from header + rows of the batches in order"
-        return None
-    return "unknown writer"
+    return check_content(c, o, w, out, chunks, ids, header)
 
 
 class Table:
@@ -303,17 +444,23 @@ def evaluate(ctx, cases, broken, label, corr_idx=None, fn="mismatches"):
     keep = set(corr_idx) if corr_idx is not None else None
 
     def post(i, c, o):
-        why = check(c, o)
-        if (why is None and keep is not None and i not in keep and not c.get("rich") and not c.get("want_recs")
+        try:
+            why = check(c, o)
+        except Exception as e:
+            why = "the output cannot be analysed (%r)" % e
+        if (why is None and keep is not None and i not in keep and not c.get("rich") and not c.get("want_recs") and not is_glue(c)
                 and 300 < i < len(cases) - 1):
             o = dict(kind=o.get("kind"), closes=o.get("closes"), closed_at_iter_end=o.get("closed_at_iter_end"))   # the rest is not looked at again
         o["_why"] = why
         return o
+    import time
+    t0 = time.time()
     obs = run_impl(ctx, cases, post=post)
+    ctx.cov.setdefault("impl_wall_s", round(time.time() - t0, 1))
     fails = [(i, o["_why"]) for i, o in enumerate(obs) if o.get("_why")]
     shown = set()
     for i, why in fails:
-        key = (cases[i]["writer"], why[:30])
+        key = (cases[i].get("writer") or cases[i].get("mode"), why[:30])
         if key in shown or len(shown) >= 8:
             continue
         shown.add(key)
@@ -324,7 +471,8 @@ def evaluate(ctx, cases, broken, label, corr_idx=None, fn="mismatches"):
         ctx.violation("%s_oracle_%d" % (label, i), dict(property="C04", kind="direct-oracle", case=cases[i], why=why, implementation=ob,
                                                       expected="every batch once, in order, framed; closed once, before the result iterator ends"))
     idx = [i for i in (corr_idx if corr_idx is not None else range(len(cases)))
-           if obs[i].get("kind") == "ok" and out_bytes(cases[i], obs[i]) is not None and not cases[i].get("no_close")]
+           if obs[i].get("kind") == "ok" and out_bytes(cases[i], obs[i]) is not None and not cases[i].get("no_close")
+           and not cases[i].get("mode") and cases[i].get("writer") in KIND]
     tab = Table()
     terms = [case_term(tab, cases[i], obs[i]) for i in idx]
     bad, err = ctx.correspond(label, IMPORTS + tab.defs(), terms, fn=fn, shard=400)
@@ -335,7 +483,9 @@ def evaluate(ctx, cases, broken, label, corr_idx=None, fn="mismatches"):
 
 
 def nontrivial(c):
-    return c["arrival"] != sorted(c["arrival"]) or 0 in (c.get("bytes") or c["sizes"]) or c.get("workers", 1) > 1
+    if c.get("raw_chunks") is not None:
+        return c["arrival"] != sorted(c["arrival"]) or "" in c["raw_chunks"] or bool(c.get("old"))
+    return c["arrival"] != sorted(c["arrival"]) or 0 in (c.get("bytes") or c["sizes"]) or c.get("workers", 1) > 1 or bool(c.get("old"))
 
 
 # ---------------------------------------------------------------- round 2: records, grammar, rows
@@ -417,14 +567,14 @@ def records_check(ctx, cases, obs, broken, rng):
     """FormatJSONBatch / FormatCVSBatch = model on the real records; the real output is one JSON text whose
     elements are the records (Coq recogniser), CSV rows decode to the fields; the recogniser itself agrees
     with json.loads on valid texts and mutants."""
-    idx = [i for i, (c, o) in enumerate(zip(cases, obs)) if c["writer"] in ("json", "csv") and o.get("kind") == "ok"
-           and not c.get("compressed") and (c.get("rich") or c.get("want_recs"))
+    idx = [i for i, (c, o) in enumerate(zip(cases, obs)) if c.get("writer") in ("json", "csv") and o.get("kind") == "ok" and not c.get("mode")
+           and not c.get("compressed") and not c.get("no_close") and (c.get("rich") or c.get("want_recs"))
            and len(o.get("out") or "") < 60000]
     rich = [i for i in idx if cases[i].get("rich")]
     plain = [i for i in idx if not cases[i].get("rich")]
     pick = rich[:400 if ctx.quick else 4000] + rng.sample(plain, min(len(plain), 300 if ctx.quick else 3000))
     terms = [fcase_term(cases[i], obs[i]) for i in pick]
-    texts = json_texts(rng, 1500 if ctx.quick else 20000)
+    texts = json_texts(rng, (100 if os.environ.get("VERIF_C04_FAST") else 1500) if ctx.quick else 20000)
     terms += ["FText %s %s" % (nlist(b), "true" if ok else "false") for b, ok in texts]
     bad, err = ctx.correspond("records", IMPORTS, terms, fn="fmismatches", shard=250)
     ctx.cov["record_level_cases"] = len(pick)
@@ -446,10 +596,258 @@ def records_check(ctx, cases, obs, broken, rng):
     ctx.cov["record_level_mismatches"] = len(bad)
 
 
+
+# ---------------------------------------------------------------- round 3: the glue around the writers
+GIMPORTS = IMPORTS + "From OBI.C04 Require Import Csv Glue.\n"
+RAW_ALPHABET = [b"", b"", b"a", b"\n", b">x\nac\n", b"\x00\xff\x80", b"[\n", b",\n", b"\"q\",\"\"\n", bytes(range(250, 256)) * 3, b"@r\nac\n+\nII\n"]
+
+
+def glue_corpus():
+    """file / stdout entry points, the universal writer, WriteSeqFileChunk driven directly, OpenWritingFile,
+    CSV column options and --auto, qualities, zero-length sequences (always run, first)"""
+    cs = []
+    perms3 = [[0, 1, 2], [2, 1, 0], [1, 2, 0], [2, 0, 1]]
+    for w in ("fasta", "fastq", "json", "csv", "auto"):
+        for k, (old, app) in enumerate(((0, False), (3000, False), (700, True))):
+            cs.append(dict(writer=w, sizes=[2, 0, 1], arrival=perms3[(k + len(w)) % 4], workers=1, mode="file", old=old, append=app,
+                           qual=(w == "auto" and k != 1), tag="round3:file-%s-old%d-%s" % (w, old, "append" if app else "truncate")))
+        cs.append(dict(writer=w, sizes=[1, 2, 2], arrival=[2, 0, 1], workers=1, mode="file", old=2500, paired=True, qual=(w == "auto")))
+        cs.append(dict(writer=w, sizes=[0, 2, 1], arrival=[1, 0, 2], workers=1, mode="file", old=40, append=True, paired=True))
+        cs.append(dict(writer=w, sizes=[2, 1], arrival=[1, 0], workers=1, mode="file", old=5000, compressed=True))
+        cs.append(dict(writer=w, sizes=[0, 0, 2, 1], arrival=[1, 0, 3, 2], workers=1, mode="file", old=200, paired=True, qual=(w == "auto"),
+                       tag="round3:paired-stream-with-leading-empty-batches"))
+        cs.append(dict(writer=w, sizes=[], arrival=[], workers=1, mode="file", old=300, tag="round3:file-no-batch-truncates"))
+        cs.append(dict(writer=w, sizes=[2, 0, 2], arrival=[2, 1, 0], workers=1, mode="stdout", qual=(w == "auto")))
+        cs.append(dict(writer=w, sizes=[1, 1, 1, 1], arrival=[3, 2, 1, 0], workers=3, mode="file", old=100))
+    # the universal writer: the format is read off the first NON-EMPTY batch that arrives
+    for q in (False, True):
+        cs.append(dict(writer="auto", sizes=[0, 0, 2], arrival=[1, 0, 2], workers=1, qual=q, tag="round3:universal-leading-empty-batches"))
+        cs.append(dict(writer="auto", sizes=[2, 0, 0], arrival=[1, 2, 0], workers=1, qual=q))
+        cs.append(dict(writer="auto", sizes=[0, 0], arrival=[1, 0], workers=1, qual=q))
+        cs.append(dict(writer="auto", sizes=[], arrival=[], workers=1, qual=q, tag="fixed:universal-writer-no-batch-never-closes"))
+        cs.append(dict(writer="auto", sizes=[], arrival=[], workers=1, qual=q, compressed=True, tag="fixed:universal-writer-no-batch-never-closes (0-byte .gz)"))
+        cs.append(dict(writer="auto", sizes=[1, 2, 0, 1], arrival=[2, 3, 1, 0], workers=1, qual=q, empty_seq=True))
+        cs.append(dict(writer="auto", sizes=[3, 2], arrival=[1, 0], workers=1, qual=q, empty_seq=True,
+                       tag="fixed:universal-writer-format-read-off-a-zero-length-read (first batch to arrive starts with one: FASTQ stream written as FASTA)"))
+        cs.append(dict(writer="auto", sizes=[3, 2], arrival=[0, 1], workers=1, qual=q, empty_seq=True))
+        cs.append(dict(writer="auto", sizes=[0, 3, 2], arrival=[0, 2, 1], workers=1, qual=q, empty_seq=True, mode="file", old=900))
+    # OpenWritingFile / Wfile.WriteString
+    raw = [x.hex() for x in (b">a\nacgt\n", b"", b"\x00\xff\n", b"tail")]
+    for old, app, gz in ((0, False, False), (200, False, False), (200, True, False), (300, False, True), (0, True, True)):
+        cs.append(dict(mode="wfile", raw_chunks=raw, arrival=[0, 1, 2, 3], old=old, append=app, compressed=gz,
+                       tag="fixed:OpenWritingFile-does-not-truncate" if old and not app else None))
+    # zero-length sequences, qualities in JSON / CSV, taxonomic columns, many attribute types
+    for w in ("fasta", "fastq", "json", "csv"):
+        cs.append(dict(writer=w, sizes=[3, 3, 1], arrival=[2, 0, 1], workers=1, empty_seq=True, want_recs=True))
+        cs.append(dict(writer=w, sizes=[3, 0, 2], arrival=[1, 2, 0], workers=1, var=True, rich=True))
+    cs.append(dict(writer="fasta", sizes=[1, 3], arrival=[1, 0], workers=1, empty_seq=True, tag="round3:batch-of-empty-sequences-gives-an-empty-chunk"))
+    for w in ("json", "csv"):
+        cs.append(dict(writer=w, sizes=[2, 2], arrival=[1, 0], workers=1, qual=True, tax=True, want_recs=True, csv="ctq" if w == "csv" else ""))
+    cs.append(dict(writer="json", sizes=[0, 0, 0, 1], arrival=[3, 0, 2, 1], workers=1, rich=True, ctl=True,
+                   tag="round3:json-record-unescape (escaped backslash followed by u00e9)"))
+    # every subset of the CSV column options (never all columns off)
+    letters = "ictdksqN"
+    for m in range(256):
+        f = "".join(l for i, l in enumerate(letters) if (m >> i) & 1)
+        if "i" in f and "s" in f and not (set(f) & set("ctdkq")):
+            continue
+        cs.append(dict(writer="csv", sizes=[2, 0, 2], arrival=[[2, 1, 0], [0, 1, 2], [1, 2, 0]][m % 3], workers=1, csv=f, tax=True, qual=(m % 4 != 1),
+                       rich=(m % 5 == 0), var=(m % 7 == 0), want_recs=True))
+    # --auto: the columns are the sorted non-map keys of batch 0, whatever arrives first (odd batches carry one more key)
+    for n in range(0, 4):
+        for perm in itertools.permutations(range(n)):
+            for f in ("a", "ack"):
+                cs.append(dict(writer="csv", sizes=[(2 if i != 1 else 3) for i in range(n)], arrival=list(perm), workers=1, csv=f, var=True, rich=(len(f) > 1),
+                               want_recs=True))
+    cs.append(dict(writer="csv", sizes=[0, 2], arrival=[1, 0], workers=1, csv="a", var=True, tag="round3:auto-with-empty-batch-0"))
+    cs.append(dict(writer="csv", sizes=[2, 3, 2], arrival=[0, 1, 2], workers=4, csv="a", var=True, mode="file"))
+    # batch 0 arrives last after many others (a formatting buffer reused while a chunk waits in the map)
+    for w in WRITERS:
+        for n in (8, 12):
+            cs.append(dict(writer=w, sizes=[1 + (i * 7) % 3 for i in range(n)], arrival=list(range(1, n)) + [0], workers=1, rich=(n == 8)))
+            cs.append(dict(writer=w, sizes=[1 + (i * 5) % 3 for i in range(n)], arrival=[n - 1] + list(range(1, n - 1)) + [0], workers=1))
+    # long streams of tiny batches through several formatting workers
+    for w in WRITERS + ["auto"]:
+        cs.append(dict(writer=w, sizes=[(i * 3) % 4 for i in range(150)], arrival=list(range(150)), workers=8, qual=(w == "auto")))
+    return [{k: v for k, v in c.items() if v is not None} for c in cs]
+
+
+def glue_exhaustive(nmax):
+    """WriteSeqFileChunk driven directly and the universal writer: every arrival permutation x every subset of empty chunks"""
+    for n in range(0, nmax + 1):
+        for perm in itertools.permutations(range(n)):
+            for mask in range(1 << n):
+                raw = [b"" if (mask >> i) & 1 else RAW_ALPHABET[2 + (i * 3 + mask + len(perm)) % (len(RAW_ALPHABET) - 2)] for i in range(n)]
+                yield dict(mode="chunks", raw_chunks=[x.hex() for x in raw], arrival=list(perm), to_be_closed=bool((mask + n + perm.index(0) if n else 0) % 2 == 0))
+                yield dict(writer="auto", sizes=[0 if (mask >> i) & 1 else 1 + i % 2 for i in range(n)], arrival=list(perm), workers=1, qual=bool((mask + sum(perm[:1])) % 2))
+
+
+def glue_random(rng):
+    r = rng.random()
+    n = rng.randrange(0, 7)
+    arr = list(range(n))
+    rng.shuffle(arr)
+    if r < 0.2:
+        return dict(mode="chunks", raw_chunks=[bytes(rng.randrange(256) for _ in range(rng.choice([0, 0, 1, 3, 17]))).hex() for _ in range(n)],
+                    arrival=arr, to_be_closed=rng.random() < 0.5)
+    if r < 0.25:
+        return dict(mode="wfile", raw_chunks=[bytes(rng.randrange(256) for _ in range(rng.choice([0, 1, 30]))).hex() for _ in range(n)],
+                    arrival=arr, old=rng.choice([0, 10, 500]), append=rng.random() < 0.4, compressed=rng.random() < 0.3)
+    w = rng.choice(WRITERS + ["auto"])
+    wk = 1 if rng.random() < 0.7 else rng.randrange(2, 6)
+    c = dict(writer=w, sizes=[rng.choice([0, 0, 1, 2, 3]) for _ in range(n)], arrival=arr if wk == 1 else list(range(n)), workers=wk)
+    if r < 0.6:
+        c.update(mode=rng.choice(["file", "file", "stdout"]))
+        if c["mode"] == "file":
+            c.update(old=rng.choice([0, 0, 30, 4000]), append=rng.random() < 0.3, paired=rng.random() < 0.3)
+        c["compressed"] = rng.random() < 0.15
+    for k, pr in (("qual", 0.4), ("empty_seq", 0.25), ("tax", 0.3), ("var", 0.3), ("rich", 0.3)):
+        if rng.random() < pr:
+            c[k] = True
+    if w == "csv":
+        f = "".join(l for l in "ictdksqNa" if rng.random() < 0.3)
+        if "i" in f and "s" in f and not (set(f) & set("ctdkq")):
+            f = f.replace("i", "")
+        c.update(csv=f, want_recs=True)
+    return c
+
+
+GTAB = None      # names for the byte strings of the generated glue cases (shared chunks are written once)
+
+
+def hx(x):
+    b = bytes.fromhex(x)
+    if GTAB is not None and len(b) > 6:
+        return GTAB.ref(b)
+    return packed(b)
+
+
+def hxl(xs):
+    return "[" + "; ".join(hx(x) for x in xs) + "]"
+
+
+def nats(xs):
+    return "[" + "; ".join(str(i) for i in xs) + "]"
+
+
+def glue_terms(c, o):
+    """Gallina terms (Glue.gcase) tying one observation to the model of the glue"""
+    if o.get("kind") != "ok":
+        return []
+    b = lambda v: "true" if v else "false"
+    mode = c.get("mode")
+    n = nbatches(c)
+    order = c["arrival"] if c.get("workers", 1) == 1 else list(range(n))
+    if mode == "chunks":
+        return ["GChunks %s %s %s %s %d" % (b(c.get("to_be_closed")), hxl(c["raw_chunks"]), nats(order), hx(o.get("out") or ""), o["closes"])]
+    if mode == "wfile":
+        data = bytes.fromhex(o["files"][0])
+        old = bytes.fromhex((o.get("old_hex") or [""])[0])
+        if c.get("compressed"):
+            keep = len(old) if c.get("append") else 0
+            body = gunzip(data[keep:])
+            if body is None:
+                return []
+            data = data[:keep] + body
+        written = [c["raw_chunks"][k] for k in c["arrival"]]
+        return ["GFile KFasta %s %s [] %s %s %s" % (b(c.get("append")), packed(old), hxl(written), nats(range(len(written))), packed(data))]
+    w = eff_writer(c)
+    terms = []
+    if mode in ("file", "stdout"):
+        olds = [bytes.fromhex(x) for x in (o.get("old_hex") or [])]
+        for k, hxf in enumerate(o.get("files_final") or []):
+            data = bytes.fromhex(hxf)
+            old = olds[k] if k < len(olds) else b""
+            if c.get("compressed"):
+                keep = len(old) if c.get("append") else 0
+                body = gunzip(data[keep:])
+                if body is None:
+                    continue
+                data = data[:keep] + body
+            terms.append("GFile %s %s %s %s %s %s %s" % (KIND[w], b(c.get("append")), packed(old), hx(o.get("header") or ""),
+                                                      hxl(o.get("rchunks" if k else "chunks") or []), nats(order), packed(data)))
+    elif c.get("writer") == "auto" and not c.get("compressed") and not c.get("no_close"):
+        quals = "[" + "; ".join(dict(empty="BEmpty", qual="BQual", noqual="BNoQual")[x] for x in (o.get("bq") or [])) + "]"
+        ch = hxl(o.get("chunks") or [])
+        # the chunks of the format that was NOT to be chosen are not formed: a wrong choice shows as other bytes
+        terms.append("GAuto %s %s %s %s %s %d" % (quals, "[]" if c.get("qual") else ch, ch if c.get("qual") else "[]", nats(order), hx(o.get("out") or ""), o["closes"]))
+    if w in ("fasta", "fastq") and o.get("recs") is not None and not mode and not c.get("compressed") and not c.get("no_close"):
+        recs = "[" + "; ".join("[" + "; ".join("(%s, %s)" % (b(bool(x)), hx(x)) for x in rl) + "]" for rl in o["recs"]) + "]"
+        terms.append("GFastx %s %s %s" % (recs, hxl(o.get("chunks") or []), hx(o.get("out") or "")))
+    if c.get("writer") == "csv" and o.get("info") and o.get("fields") is not None and not c.get("compressed"):
+        f, keys = py_csv_header(c)
+        hdr = o.get("hdr_fields") or []
+        lead = (0 if "i" in f else 1) + (1 if "c" in f or c.get("rich") else 0) + (2 if "t" in f else 0) + (1 if "d" in f or c.get("rich") else 0)
+        trail = (0 if "s" in f else 1) + (1 if "q" in f else 0)
+        kcols = hdr[lead:len(hdr) - trail]
+        opts = "(mkco %s %s %s %s %s %s %s %s)" % (b("i" not in f), b("c" in f or c.get("rich")), b("t" in f), b("d" in f or c.get("rich")), hxl(kcols),
+                                                  b("s" not in f), b("q" in f), nlist(b"-" if "N" in f else b"NA"))
+        recs = [(r, row) for bi, rows in zip(o["info"], o["fields"]) for r, row in zip(bi, rows)]
+        for r, row in recs[:3]:
+            attrs = "[" + "; ".join("(%s, %s)" % (hx(k), hx(v)) for k, v in sorted(r["attrs"].items())) + "]"
+            rec = "(mkcr %s %s %s %s %s %s %s %s %s)" % (hx(r["id"]), nlist(str(r["count"]).encode()), nlist(str(r["taxid"]).encode()), b(r["taxid"] == 1),
+                                                       ("(Some %s)" % hx(r["sn"])) if r["has_sn"] else "None", hx(r["def"]), attrs, hx(r["seq"]),
+                                                       ("(Some %s)" % hx(r["qual"])) if r["has_q"] else "None")
+            terms.append("GCsvRec %s %s %s %s" % (opts, rec, hxl(hdr), hxl(row)))
+        if "a" in f and not mode:
+            out = out_bytes(c, o) or b""
+            rows = list(csv.reader(io.StringIO(out.decode("utf8"), newline="")))
+            if rows:
+                real = rows[0][lead:len(rows[0]) - trail]
+                bkeys = "[" + "; ".join(hxl(sorted({k for r in bi for k in r["attrs"] if k not in r["maps"]}, reverse=True)) for bi in o["info"]) + "]"
+                terms.append("GAutoCols %s %s %s %s" % (hxl([k.encode().hex() for k in keys]), bkeys, nats(order), hxl([x.encode("utf8").hex() for x in real])))
+    return terms
+
+
+def glue_check(ctx, cases, obs, broken):
+    """correspondence of the glue model (Glue.v) on the observations of the round-3 cases; every shard of generated
+    cases names its own byte strings (shared chunks are written once)"""
+    global GTAB
+    todo = [i for i, (c, o) in enumerate(zip(cases, obs)) if is_glue(c) and not o.get("_why")]
+    shards, cur, tab = [], [], Table()
+    GTAB = tab
+    for i in todo:
+        for t in glue_terms(cases[i], obs[i]):
+            if len(t) < 60000:
+                cur.append((i, t))
+        if len(cur) >= 300:
+            shards.append((cur, tab.defs()))
+            cur, tab = [], Table()
+            GTAB = tab
+    if cur:
+        shards.append((cur, tab.defs()))
+    GTAB = None
+    ctx.cov["glue_model_evaluations"] = sum(len(sh) for sh, _ in shards)
+
+    def one(k):
+        sh, defs = shards[k]
+        return ctx.correspond("glue%d" % k, GIMPORTS + defs, [t for _, t in sh], fn="gmismatches", shard=len(sh))
+    with ThreadPoolExecutor(max_workers=8) as ex:
+        res = list(ex.map(one, range(len(shards))))
+    nbad = 0
+    for (sh, _), (bad, err) in zip(shards, res):
+        if bad is None:
+            broken.append(dict(kind="correspondence", detail=err))
+            return
+        for k in bad:
+            nbad += 1
+            if nbad <= 3:
+                i, t = sh[k]
+                broken.append(dict(kind="correspondence", name="corr:C04/glue/%s" % t.split(" ")[0], first_diverging_case=cases[i], term=t[:1500]))
+    ctx.cov["glue_model_mismatches"] = nbad
+
+
+def is_glue(c):
+    return bool((c.get("writer") in ("fasta", "fastq") and (c.get("want_recs") or c.get("rich") or c.get("empty_seq"))) or c.get("mode") or c.get("writer") == "auto" or c.get("csv") is not None or c.get("tax") or c.get("var"))
+
+
 def run(ctx, broken):
     rng = ctx.rng
     nmax = 5 if ctx.quick else 6
-    cases = list(CORPUS) + list(boundary_cases())
+    fast = bool(os.environ.get("VERIF_C04_FAST"))     # development aid (mutation testing): a subset of the quick tier
+    if fast:
+        nmax = 3
+    cases = list(CORPUS) + glue_corpus() + list(boundary_cases())
     n_corpus = len(cases)
     for n in range(0, nmax + 1):
         cases += list(exhaustive(n))
@@ -460,32 +858,67 @@ def run(ctx, broken):
             for perm in itertools.permutations(range(7)):
                 for mask in {0, 127, rng.randrange(128), rng.randrange(128), 1 << rng.randrange(7)}:
                     cases.append(dict(writer=w, sizes=[0 if (mask >> i) & 1 else 1 for i in range(7)], arrival=list(perm), workers=1))
+    cases += list(glue_exhaustive(4 if ctx.quick else 5))
     n_rand = 400 if ctx.quick else 6000
+    n_grand = 300 if ctx.quick else 5000
+    if fast:
+        n_rand, n_grand = 100, 150
+    cases += [glue_random(rng) for _ in range(n_grand)]
     cases += [random_case(rng) for _ in range(n_rand)]
     # model evaluation: everything up to 4 batches, the corpus, the random cases, a sample of the rest
     small = [i for i, c in enumerate(cases) if nbatches(c) <= (4 if ctx.quick else 5) or i < n_corpus or i >= len(cases) - n_rand]
     rest = [i for i in range(len(cases)) if nbatches(cases[i]) > (4 if ctx.quick else 5) and n_corpus <= i < len(cases) - n_rand]
     corr_idx = sorted(small + rng.sample(rest, min(len(rest), 800 if ctx.quick else 6000)))
-    plain = [i for i, c in enumerate(cases) if c["writer"] in ("json", "csv") and not c.get("rich") and not c.get("compressed") and not c.get("no_close")]
+    plain = [i for i, c in enumerate(cases) if c.get("writer") in ("json", "csv") and not c.get("rich") and not c.get("compressed") and not c.get("no_close")
+             and not is_glue(c)]
     for i in rng.sample(plain, min(len(plain), 300 if ctx.quick else 3000)):
         cases[i] = dict(cases[i], want_recs=True)
+    plainx = [i for i, c in enumerate(cases) if c.get("writer") in ("fasta", "fastq") and not c.get("bytes") and not c.get("compressed") and not c.get("no_close")
+              and not c.get("mode") and not is_glue(c)]
+    for i in rng.sample(plainx, min(len(plainx), 200 if ctx.quick else 2000)):
+        cases[i] = dict(cases[i], want_recs=True)
+    import time
+    t0 = time.time()
     obs, fails, mism = evaluate(ctx, cases, broken, "main", corr_idx)
+    t1 = time.time()
     records_check(ctx, cases, obs, broken, rng)
+    t2 = time.time()
+    glue_check(ctx, cases, obs, broken)
+    t3 = time.time()
     cli_check(ctx, broken)
+    ctx.cov["phase_wall_s"] = dict(writers_and_main_correspondence=round(t1 - t0, 1), records=round(t2 - t1, 1), glue=round(t3 - t2, 1), cli=round(time.time() - t3, 1))
     ctx.cov["evaluations"] = len(cases)
     ctx.cov["chunk_sizes_not_reachable"] = sum(1 for o in obs if o.get("kind") == "skip")
     ctx.cov["boundary_cases"] = "%d cases with chunk sizes given in bytes (4095/4096/4097 per chunk and in total, chunks > buffer on an empty buffer, zero-length chunks)" % sum(1 for c in cases if c.get("bytes"))
     ctx.cov["exhaustive"] = True
     ctx.cov["exhaustive_scope"] = "all arrival permutations of <=%d batches x all subsets of empty batches x 4 writers (%d histories)%s" % (
-        nmax, n_exh - n_corpus, "" if ctx.quick else "; 7 batches: all 5040 permutations x sampled subsets")
+        nmax, n_exh - n_corpus, "" if ctx.quick else "; 7 batches: all 5040 permutations x sampled subsets") + \
+        "; WriteSeqFileChunk driven directly and the universal writer: all permutations of <=%d batches x all subsets of empty ones" % (4 if ctx.quick else 5)
     ctx.cov["distinct_nontrivial"] = len({json.dumps(to_vh(c), sort_keys=True) for c in cases if nontrivial(c)})
     ctx.cov["rule"] = ("non-trivial = the arrival order is not the identity (a chunk is buffered and later drained), or a batch is empty, "
                        "or several formatting workers race; distinct = distinct (writer, sizes, arrival, workers, compressed)")
     dist = {}
     for c in cases:
-        k = "%s/n=%d/%s" % (c["writer"], nbatches(c), "w1" if c.get("workers", 1) == 1 else "wN")
+        k = "%s/n=%d/%s" % (c.get("mode") or c.get("writer"), nbatches(c), "w1" if c.get("workers", 1) == 1 else "wN")
         dist[k] = dist.get(k, 0) + 1
     ctx.cov["distribution"] = dist
+    cls = {}
+    for c in cases:
+        for k in ("mode", "qual", "empty_seq", "tax", "var", "rich", "ctl", "append", "paired", "old", "compressed", "slow_ms", "no_close", "bytes", "to_be_closed"):
+            if c.get(k):
+                kk = "%s=%s" % (k, c[k]) if k == "mode" else k
+                cls[kk] = cls.get(kk, 0) + 1
+        if c.get("writer") == "auto":
+            cls["universal writer"] = cls.get("universal writer", 0) + 1
+        if c.get("csv") is not None:
+            for l in c["csv"]:
+                cls["csv option " + l] = cls.get("csv option " + l, 0) + 1
+        if nbatches(c) >= 8:
+            cls["8 batches or more"] = cls.get("8 batches or more", 0) + 1
+    ctx.cov["input_classes"] = cls
+    ctx.cov["classes_not_generated"] = ("batch numbers with gaps or duplicates (outside the quantifier: arrival histories are permutations of 0..n-1); "
+                                        "records read from files with zero-length reads (the readers do not deliver them); streams mixing records with and without "
+                                        "qualities (the universal writer's format then depends on the arrival order: observation, see note); write errors (C18)")
     ctx.cov["compressed_cases"] = sum(1 for c in cases if c.get("compressed"))
     ctx.cov["sink_closed_when_result_iterator_ended"] = "%d of %d closing runs (required in every run; %d runs on a slow sink)" % (
         sum(1 for c, o in zip(cases, obs) if o.get("closed_at_iter_end") and not c.get("no_close")), sum(1 for c in cases if not c.get("no_close")),
@@ -495,75 +928,161 @@ def run(ctx, broken):
     ctx.samples = [dict(case=c, out=(out_bytes(c, o) or b"").decode("latin1"), closes=o.get("closes")) for c, o in
                    [(cases[i], obs[i]) for i in (0, 1, len(CORPUS) - 30, n_corpus + 40, len(cases) - 1)]]
     if mism and not ctx.violations:
-        more = [random_case(rng, 8) for _ in range(5000)]
+        more = [random_case(rng, 8) for _ in range(300 if fast else 5000)] + [glue_random(rng) for _ in range(300 if fast else 3000)]
         evaluate(ctx, more, [], "search", corr_idx=[])
         if not ctx.violations:
             i = mism[0]
-            broken.append(dict(kind="correspondence", name="corr:C04/%s/bytes+closes" % cases[i]["writer"], first_diverging_case=cases[i],
+            broken.append(dict(kind="correspondence", name="corr:C04/%s/bytes+closes" % cases[i].get("writer"), first_diverging_case=cases[i],
                                implementation=obs[i], n_diverging=len(mism)))
     elif mism:
         ctx.cov["note"] = "model and implementation diverge on %d cases (violations reported by the direct oracle)" % len(mism)
 
 
 # ---------------------------------------------------------------- the built commands (observe_at: obiconvert --json-output, obicsv)
+def cli_inputs(d):
+    """the input files of the command-level runs; returns the record ids per file"""
+    n = 7
+    ids = ["s%d" % i for i in range(n)]
+    w = lambda name, text: open(os.path.join(d, name), "w").write(text)
+    w("in.fasta", "".join(">%s {\"count\":%d,\"k\":\"v %d\"} def %d\n%s\n" % (x, i + 1, i, i, "acgt" * (3 + i)) for i, x in enumerate(ids)))
+    # (the readers do not deliver zero-length reads from files: those are exercised in process only)
+    seqs = ["acgt" * (2 + i) for i in range(n)]
+    w("in.fastq", "".join("@%s {\"taxid\":%d}\n%s\n+\n%s\n" % (x, 9606 + i, q, "I" * len(q)) for i, (x, q) in enumerate(zip(ids, seqs))))
+    w("p1.fastq", "".join("@%s\n%s\n+\n%s\n" % (x, "acgt" * (2 + i), "I" * (8 + 4 * i)) for i, x in enumerate(ids)))
+    w("p2.fastq", "".join("@%s\n%s\n+\n%s\n" % (x, "ttga" * (1 + i), "F" * (4 + 4 * i)) for i, x in enumerate(ids)))
+    w("empty.fasta", "")
+    return ids, seqs
+
+
+def cli_ids(kind, data):
+    """record ids of a FASTA / FASTQ / JSON / CSV text, or a reason (str starting with '!')"""
+    try:
+        t = data.decode("utf8")
+        if kind == "fasta":
+            return [l[1:].split(" ")[0] for l in t.split("\n") if l.startswith(">")]
+        if kind == "fastq":
+            ls = t.split("\n")
+            if ls[-1] != "" or (len(ls) - 1) % 4 or any(not l.startswith("@") for l in ls[0:-1:4]) or any(l != "+" for l in ls[2:-1:4]):
+                return "!the output is not a sequence of 4-line FASTQ records"
+            return [l[1:].split(" ")[0] for l in ls[0:-1:4]]
+        if kind == "json":
+            v = json.loads(t)
+            if not isinstance(v, list) or any(not isinstance(r, dict) for r in v):
+                return "!the output is not a JSON array of objects"
+            return [r.get("id") for r in v]
+        if kind == "csv":
+            rows = list(csv.reader(io.StringIO(t, newline="")))
+            return [r[0] if r else None for r in rows[1:]]
+    except Exception as e:
+        return "!the output cannot be read as %s (%s)" % (kind, e)
+
+
 def cli_check(ctx, broken):
-    """obicsv / obiconvert --json-output, to stdout and to -o FILE (FILE exists already and is longer than the result):
-    the file / stdout holds exactly one header + one row per record, resp. one JSON array of the records, in order."""
+    """The built commands (obiconvert with every output format, obicsv): to stdout, to -o FILE (FILE exists already
+    and is longer than the result), compressed, paired, with one or several CPUs. Every variant of one (input, format)
+    must give the SAME bytes, holding the records in order (FASTQ stays FASTQ, zero-length reads skipped when asked,
+    one JSON array, header with the columns asked for + one row per record); an empty input gives a complete empty output."""
     bindir, err = ctx.build_cmds(["obiconvert", "obicsv"])
     if bindir is None:
         broken.append(dict(kind="cmd-build", detail=err))
         return
     d = os.path.join(vlib.BUILD, "c04_cli")
     os.makedirs(d, exist_ok=True)
-    n = 7
-    ids = ["s%d" % i for i in range(n)]
-    fa = os.path.join(d, "in.fasta")
-    with open(fa, "w") as f:
-        f.write("".join(">%s\n%s\n" % (x, "acgt" * (3 + i)) for i, x in enumerate(ids)))
-    runs = 0
-    for cmd, kind in ((["obicsv", "-i", "-s"], "csv"), (["obiconvert", "--json-output"], "json")):
-        for mode in ("stdout", "-o"):
-            out = os.path.join(d, "out.%s.%s" % (kind, mode.strip("-")))
-            with open(out, "wb") as f:
+    ids, seqs = cli_inputs(d)
+    nonempty = [x for x, q in zip(ids, seqs) if q]
+    jobs = []     # (group, kind, expected ids, expected csv header or None, argv, dest: stdout | file | gz | paired)
+    for fmt, kind in ((None, None), ("--fasta-output", "fasta"), ("--fastq-output", "fastq"), ("--json-output", "json")):
+        for inp in ("in.fasta", "in.fastq"):
+            k = kind or inp[3:]
+            exp = ids if (inp == "in.fasta" or k == "json") else nonempty
+            base = ["obiconvert", "--skip-empty"] + ([fmt] if fmt else [])
+            g = "obiconvert %s %s" % (fmt or "(default)", inp)
+            jobs += [(g, k, exp, None, base + ["--max-cpu", "1"], inp, "stdout"), (g, k, exp, None, base + ["--max-cpu", "3"], inp, "file"),
+                     (g, k, exp, None, base + ["--max-cpu", "4"], inp, "stdout"), (g, k, exp, None, base + ["--max-cpu", "2", "--compress"], inp, "gz")]
+    for fl, hdr in ((["-i", "-s"], ["id", "sequence"]), (["-i", "-s", "-q", "--count"], ["id", "count", "sequence", "quality"]),
+                    (["-i", "--taxon", "-d", "-k", "k", "--na-value", "nd"], ["id", "taxid", "scientific_name", "definition", "k"]),
+                    (["-i", "--auto"], None)):
+        for inp in ("in.fasta", "in.fastq"):
+            g = "obicsv %s %s" % (" ".join(fl), inp)
+            h = hdr if hdr is not None else (["id", "count", "definition", "k"] if inp == "in.fasta" else ["id", "taxid"])
+            base = ["obicsv"] + fl
+            jobs += [(g, "csv", ids, h, base + ["--max-cpu", "1"], inp, "stdout"), (g, "csv", ids, h, base + ["--max-cpu", "3"], inp, "file"),
+                     (g, "csv", ids, h, base + ["--max-cpu", "4", "--compress"], inp, "gz")]
+    for k, fmt in (("fastq", None), ("fasta", "--fasta-output"), ("json", "--json-output")):
+        jobs.append(("obiconvert paired %s" % (fmt or "(default)"), k, ids, None, ["obiconvert", "--max-cpu", "3", "--paired-with", os.path.join(d, "p2.fastq")] + ([fmt] if fmt else []),
+                     "p1.fastq", "paired"))
+    for extra, dest in (([], "stdout"), ([], "file"), (["--compress"], "gz"), (["--fastq-output", "--compress"], "gz"), (["--json-output"], "file")):
+        jobs.append(("obiconvert empty input %s" % " ".join(extra), "json" if "--json-output" in extra else "fasta", [], None, ["obiconvert"] + extra, "empty.fasta", dest))
+    jobs.append(("obicsv empty input", "csv", [], None, ["obicsv", "-i", "-s"], "empty.fasta", "file"))
+
+    def one(jn):
+        n, (g, kind, exp, hdr, argv, inp, dest) = jn
+        out = os.path.join(d, "out%d.%s" % (n, "dat"))
+        outs = [out]
+        if dest == "paired":
+            outs = [os.path.join(d, "out%d_R1.dat" % n), os.path.join(d, "out%d_R2.dat" % n)]
+        for o_ in outs:
+            with open(o_, "wb") as f:
                 f.write(b"X" * 20000)          # an older, longer result
-            argv = [os.path.join(bindir, cmd[0]), "--no-progressbar", "--max-cpu", "2", "--batch-size", "2"] + cmd[1:] + [fa]
-            try:
-                if mode == "-o":
-                    p = subprocess.run(argv + ["-o", out], stdout=subprocess.PIPE, stderr=subprocess.PIPE, timeout=60)
-                    stdout = p.stdout
-                else:
-                    with open(out, "wb") as f:
-                        p = subprocess.run(argv, stdout=f, stderr=subprocess.PIPE, timeout=60)
-                    stdout = b""
-                rc = p.returncode
-            except subprocess.TimeoutExpired:
-                rc, stdout = 124, b""
-            runs += 1
-            data = open(out, "rb").read()
-            why = None
-            if rc != 0:
-                why = "exit status %d" % rc
-            elif mode == "-o" and stdout.strip():
-                why = "-o FILE is ignored: the result went to stdout (%d bytes)" % len(stdout)
-            elif kind == "csv":
-                try:
-                    rows = list(csv.reader(io.StringIO(data.decode("utf8"), newline="")))
-                except Exception as e:
-                    rows = None
-                if not rows or rows[0] != ["id", "sequence"] or [r[0] for r in rows[1:]] != ids:
-                    why = "the output is not the header line followed by one row per record in order"
+        cmd = [os.path.join(bindir, argv[0]), "--no-progressbar", "--batch-size", "2"] + argv[1:] + [os.path.join(d, inp)]
+        try:
+            if dest == "stdout":
+                with open(out, "wb") as f:
+                    p = subprocess.run(cmd, stdout=f, stderr=subprocess.PIPE, timeout=90)
+                stdout = b""
             else:
-                try:
-                    v = json.loads(data.decode("utf8"))
-                    if not isinstance(v, list) or [r.get("id") for r in v] != ids:
-                        why = "the JSON array does not hold one object per record in order"
-                except Exception as e:
-                    why = "the output is not valid JSON (%s)" % e
-            if why:
-                ctx.violation("cli_%s_%s" % (kind, mode.strip("-")), dict(property="C04", kind="cli", case=dict(argv=cmd, mode=mode), why=why, exit=rc,
-                                                                          output_head=data[:300].decode("latin1"), output_tail=data[-120:].decode("latin1"),
-                                                                          expected="header + %d rows / array of %d objects, nothing else" % (n, n)))
-    ctx.cov["cli_runs"] = runs
+                p = subprocess.run(cmd + ["-o", out], stdout=subprocess.PIPE, stderr=subprocess.PIPE, timeout=90)
+                stdout = p.stdout
+            rc = p.returncode
+        except subprocess.TimeoutExpired:
+            rc, stdout = 124, b""
+        datas = [open(o_, "rb").read() for o_ in outs]
+        return rc, stdout, datas
+
+    with ThreadPoolExecutor(max_workers=6) as ex:
+        res = list(ex.map(one, enumerate(jobs)))
+    groups = {}
+    nviol = 0
+    for n, ((g, kind, exp, hdr, argv, inp, dest), (rc, stdout, datas)) in enumerate(zip(jobs, res)):
+        why = None
+        bodies = []
+        if rc != 0:
+            why = "exit status %d" % rc
+        elif dest != "stdout" and stdout.strip():
+            why = "-o FILE is ignored: the result went to stdout (%d bytes)" % len(stdout)
+        else:
+            for data in datas:
+                if "--compress" in argv:
+                    data = gunzip(data)
+                    if data is None:
+                        why = "the compressed output is not a valid gzip stream"
+                        break
+                bodies.append(data)
+        if why is None:
+            for k, body in enumerate(bodies):
+                got = cli_ids(kind, body)
+                if isinstance(got, str):
+                    why = got[1:]
+                elif got != exp:
+                    why = "records %r instead of %r%s" % (got, exp, " (reverse file)" if k else "")
+                elif kind == "csv" and exp and hdr is not None and list(csv.reader(io.StringIO(body.decode("utf8"), newline="")))[0] != hdr:
+                    why = "CSV header %r instead of the columns asked for %r" % (body.split(b"\n")[0].decode("utf8"), hdr)
+                elif kind == "fastq" and inp == "in.fastq" and b"\nIIII" not in body:
+                    why = "the qualities of the input are lost"
+                elif kind == "csv" and "--na-value" in argv and inp == "in.fastq" and b",nd" not in body:
+                    why = "--na-value is ignored"
+            if why is None and dest != "paired":
+                ref = groups.setdefault(g, (bodies[0], argv, dest))
+                if ref[0] != bodies[0]:
+                    why = "the output differs from the one of `%s` (%s): same input, same format" % (" ".join(ref[1]), ref[2])
+        if why and nviol < 6:
+            nviol += 1
+            data = datas[0]
+            ctx.violation("cli_%d" % n, dict(property="C04", kind="cli", case=dict(argv=argv, input=inp, dest=dest, group=g), why=why, exit=rc,
+                                             output_head=data[:400].decode("latin1"), output_tail=data[-120:].decode("latin1"),
+                                             expected="records %r in order, nothing else; all variants of one (input, format) identical" % exp))
+    ctx.cov["cli_runs"] = len(jobs)
+    ctx.cov["cli_groups"] = sorted(groups)
 
 
 def replay(ctx, rp):
@@ -573,5 +1092,6 @@ def replay(ctx, rp):
         return
     c = rp.get("case") or rp.get("first_diverging_case")
     obs, fails, mism = evaluate(ctx, [c], [], "replay")
-    print("replay:", c, "->", (out_bytes(c, obs[0]) or b"").decode("latin1").__repr__(), "closes", obs[0].get("closes"),
+    shown = [bytes.fromhex(x).decode("latin1") for x in obs[0]["files_final"]] if obs[0].get("files_final") else (out_bytes(c, obs[0]) or b"").decode("latin1")
+    print("replay:", c, "->", shown.__repr__(), "closes", obs[0].get("closes"),
           "| oracle:", fails[0][1] if fails else "ok", "| model:", "mismatch" if mism else "agrees")
